@@ -17,3 +17,6 @@ def run(ctx, rep):
     from ..rules import more4
     more4.rule_panel_column(mod, rep)
     more4.rule_segment_scan(mod, rep)
+    more.rule_kernel_columns(mod, rep)   # symmetric mode runs the same update kernels: C01/C02 are part of C16's statement
+    from ..rules import more5
+    more5.rule_transpose(mod, rep)
